@@ -309,6 +309,56 @@ def stepDidKey (j : Json) : String :=
       keyLength := jNat j "keyLength", rsaSize := optNat j "rsaSize", vmOk := jBool j "vmOk" }
   cls (DidKey.resolve Sites.didKeyCfg i) (fun _ => "")
 
+def hexOf (bs : List Nat) : String := bytesHex bs
+
+/-- `urls`: hex(target URL) → what url.Parse / Hostname / net.ParseIP gave for it; a target that is not in the table is reported -/
+def didwebTable (m : Json) : DidWeb.UrlParse := fun t =>
+  match m.getObjVal? (hexOf t) with
+  | .ok e => if jBool e "ok" then some { host := jNats e "host", path := jNats e "path", isIP := jBool e "ip" } else none
+  | _ => none
+
+def didwebMissing (c : DidWeb.Cfg) (j : Json) : Option String :=
+  match DidWeb.didTarget c (jStr j "method") (jNats j "id") with
+  | .ok t => if jHas (jObj j "urls") (hexOf (DidWeb.targetURL t)) then none else some ("no-url-data:" ++ hexOf (DidWeb.targetURL t))
+  | _ => none
+
+def stepDidwebPct (j : Json) : String :=
+  match DidWeb.percentDecode Sites.didWebCfg (jNats j "s") with
+  | .ok out => "ok " ++ hexOf out
+  | .err e => "err:" ++ e
+  | .panic s => "panic:" ++ siteFn s
+
+def stepDidwebUnescape (j : Json) : String :=
+  match DidWeb.pathUnescape (jNats j "s") with
+  | some out => "ok " ++ hexOf out
+  | none => "err"
+
+def stepDidwebUrl (j : Json) : String :=
+  let c := Sites.didWebCfg
+  match didwebMissing c j with
+  | some m => m
+  | none =>
+    match DidWeb.didToURL c (didwebTable (jObj j "urls")) (jStr j "method") (jNats j "id") with
+    | .ok p => s!"ok host={hexOf p.host} path={hexOf p.path}"
+    | .err e => "err:" ++ e
+    | .panic s => "panic:" ++ siteFn s
+
+def stepDidwebResolve (j : Json) : String :=
+  let c := Sites.didWebCfg
+  match didwebMissing c j with
+  | some m => m
+  | none =>
+    let h := jObj j "http"
+    let ct : Option String := match h.getObjVal? "ct" with | .ok (.str s) => some s | _ => none
+    let http : DidWeb.Http :=
+      { reqOk := jBool h "reqOk", doOk := jBool h "doOk", status := jInt h "status", ct := ct, readOk := jBool h "readOk",
+        nullEntries := jBool h "nullEntries", unmarshal := if jStr h "unmarshal" == "ok" then .ok else if jStr h "unmarshal" == "panic" then .panic else .err,
+        idEquals := jBool h "idEquals" }
+    match DidWeb.resolve c (didwebTable (jObj j "urls")) (jStr j "method") (jNats j "id") http with
+    | .ok p => "ok path=" ++ hexOf p
+    | .err e => "err:" ++ e
+    | .panic s => "panic:" ++ s
+
 def libOf (s : String) : DidWeb.Lib := if s == "ok" then .ok else if s == "panic" then .panic else .err
 
 def stepDidnutsCallback (j : Json) : String :=
@@ -342,6 +392,10 @@ def step (st : Unit) (j : Json) : Unit × List String :=
   | "slc.update" => (st, [stepSlcUpdate j])
   | "didkey" => (st, [stepDidKey j])
   | "didnuts.callback" => (st, [stepDidnutsCallback j])
+  | "didweb.pct" => (st, [stepDidwebPct j])
+  | "didweb.unescape" => (st, [stepDidwebUnescape j])
+  | "didweb.url" => (st, [stepDidwebUrl j])
+  | "didweb.resolve" => (st, [stepDidwebResolve j])
   | o => (st, ["bad-op:" ++ o])
 
 end Nuts.Drv.C19
